@@ -108,3 +108,12 @@ func init() {
 		Assume: schedAssume,
 	}
 }
+
+func init() {
+	cfgs["C20"] = checkCfg{
+		Variant: "sched", Validate: false,
+		Budget: dur(170, 1700),
+		Rule:   "the transformer's rand.Source is a scripted source (constructor added through the build overlay) whose every draw is a choice point over a 19-value alphabet of raw 63-bit numbers (Intn(n) reaches every index for n <= 8, Shuffle every position); ALL draw sequences differing from the all-zero sequence in <= 1 (quick) / <= 2 (thorough) draws, for 1, 2 and 3 passes, over 8 input programs in the property's class (every statement and expression kind the transformer rewrites); each distinct variant text must be accepted by the analyzer and produce the original's output and outcome on the VM; states = draw sequences, distinct = distinct variant texts",
+		Assume: append([]string{"math/rand maps raw source values to Intn/Shuffle results as in go1.23 (Int31n/int31n)"}, schedAssume...),
+	}
+}
